@@ -45,7 +45,7 @@ def check(ctx, R):
         from .c11 import loop_rules
         from ..engine import terms as _terms
         loop_rules(ctx, R, roles, _terms(ctx))       # a loop that can spin for ever (under a lock) makes close() block
-        _reset_before_connect(ctx, R, roles)
+        _reset_before_connect(ctx, R, roles, li)
         _census(ctx, R, roles)
         _exc(ctx, R, roles)
     _transport_close(ctx, R)
@@ -65,7 +65,7 @@ def _calls_on(ctx, f, attr, method):
     return out
 
 
-def _reset_before_connect(ctx, R, roles):
+def _reset_before_connect(ctx, R, roles, li=None):
     f = roles.io_connect
     g = ctx.cfg(f)
     closes = _calls_on(ctx, f, "_transport", "close")
@@ -79,6 +79,14 @@ def _reset_before_connect(ctx, R, roles):
         R.check(bool(clears) and g.dominates(clears, k), "DOM-reset", f.qualname + "|clear-before-connect",
                 "the packet store is cleared before connecting on every path",
                 "the packet store is not cleared before transport.connect on every path: packets of the broken session survive connect()", f.loc(k.ast))
+    # the store is emptied by the thread that owns the transport: packets are filed only under the transport lock, so nothing of the old session
+    # can be parked after the clearing - clearing before taking the lock leaves a window for a reader that is still blocked in a transport read
+    if li is not None:
+        tl = (roles.io_cls.qualname, "_transport_lock")
+        for fx in (roles.io_connect, roles.io_close):
+            for cn in _calls_on(ctx, fx, "_packet_store", "clear_all"):
+                R.check(tl in li.held(fx, cn), "DOM-reset", "%s|clear-under-transport-lock" % fx.qualname, "the store is cleared while the transport lock is held",
+                        "the packet store is cleared without holding the transport lock: a reader still inside a transport read can park a packet of the old session after the clearing", fx.loc(cn.ast))
     # nothing is sent/read before the reset
     sends = [n for n in g.live_nodes() if any((ctx.cg.site(c) is not None and (roles.send_primitive in ctx.cg.site(c).callees or roles.connect_reader in ctx.cg.site(c).callees)) for c in node_calls(n))]
     for s in sends:
